@@ -36,7 +36,7 @@ weird = st.one_of(
 
 @st.composite
 def run_cfg(draw):
-    sp = draw(gen.space_spec(max_d=3, max_m=50))
+    sp = draw(gen.space_spec(max_d=3, max_m=50, wide=True))
     scripted = draw(st.integers(0, 2)) > 0
     kinds = ["halton", "rseq", "uniform", "pso", "best"] + ([] if scripted else ["xgb"])
     cfg = {"space": sp, "lineup": draw(gen.lineup_spec(kinds=kinds, min_len=1, max_len=4, max_bs=3)),
@@ -47,6 +47,8 @@ def run_cfg(draw):
         cfg["script"] = draw(st.lists(weird, min_size=2, max_size=12))
         cfg["loss"] = {"kind": "scripted"}
         cfg["convergence_precision"] = draw(st.sampled_from([None, None, 0, 3]))
+        # a simulation length different from the real series' (the scripted loss does not care)
+        cfg["sim_length"] = draw(st.sampled_from([None, None, cfg["N"], cfg["N"] + 3, 2]))
     else:
         cfg["loss"] = {"kind": "minkowski", "p": draw(st.sampled_from([1, 2])), "weights": None,
                        "filters": draw(st.sampled_from([None, ["demean"] * cfg["D"]]))}
